@@ -1,5 +1,6 @@
 import MithrilModel.Proto
 import MithrilModel.Handlers.C17
+import MithrilModel.Handlers.C18
 
 def dispatch (line : String) : String :=
   match Proto.parseReq line with
@@ -7,6 +8,7 @@ def dispatch (line : String) : String :=
   | some r =>
     let h : Option String :=
       if r.op.startsWith "c17." then Handlers.C17.handle r
+      else if r.op.startsWith "c18." then Handlers.C18.handle r
       else none
     h.getD "bad-request"
 
